@@ -583,6 +583,7 @@ def reduce_axis(t: Tensor, axis: int, kind: str):
         base = pst.fresh_name("sum")
         vf = _mk_fun(base, nparams, sort)
         node = RNode("sum", d, nparams, body, vf, sort=sort)
+        node.pdims = rest
         pst.sums.append(node)
         if hkey is not None:
             pst.ghost["hashcons"][hkey] = (node, hkey)
@@ -603,6 +604,7 @@ def reduce_axis(t: Tensor, axis: int, kind: str):
             body = lambda *a: C.as_num(t.at(*full_idx(a[:-1], a[-1])))  # noqa: E731
             node = RNode(mk, d, nparams, body, vf, af, sort=sort)
             node._keep = t
+            node.pdims = rest
             cache[key] = node
             pst.sums.append(node)
             sorts = [INT] * (nparams + 1)
@@ -690,8 +692,13 @@ def close_sums(pst, prove):
                     continue
                 sk = [z3.Int(f"cg!{a_i}!{b_i}!{k}") for k in range(a.nparams + 1)]
                 dz = dim_z(a.dim)
+                # parameters range over the non-reduced dimensions (when both nodes recorded them)
+                pda, pdb = getattr(a, "pdims", None), getattr(b, "pdims", None)
+                prng = lambda *p: z3.BoolVal(True)  # noqa: E731
+                if pda and pdb is not None and len(pda) == len(pdb) == a.nparams and all(dim_eq(x, y) for x, y in zip(pda, pdb)):
+                    prng = lambda *p, pda=pda: z3.And(*[z3.And(C.to_z3(p[k]) >= 0, C.to_z3(p[k]) < dim_z(pda[k])) for k in range(len(pda))])  # noqa: E731
                 try:
-                    goal = z3.Implies(z3.And(sk[-1] >= 0, sk[-1] < dz), a.body(*sk) == b.body(*sk))
+                    goal = z3.Implies(z3.And(prng(*sk[:-1]), sk[-1] >= 0, sk[-1] < dz), a.body(*sk) == b.body(*sk))
                 except (z3.Z3Exception, Unsupported, PyRaise):
                     continue
                 # a pair that was not provable is retried only when new facts arrived
@@ -712,9 +719,9 @@ def close_sums(pst, prove):
                         if a.af is not None:
                             pst.assume(a.af() == b.af())
                     else:
-                        pst.assume_forall([INT] * a.nparams, lambda *p, a=a, b=b: _apply(a.vf, p) == _apply(b.vf, p), "sum.congr")
+                        pst.assume_forall([INT] * a.nparams, lambda *p, a=a, b=b, prng=prng: z3.Implies(prng(*p), _apply(a.vf, p) == _apply(b.vf, p)), "sum.congr")
                         if a.af is not None:
-                            pst.assume_forall([INT] * a.nparams, lambda *p, a=a, b=b: _apply(a.af, p) == _apply(b.af, p), "arg.congr")
+                            pst.assume_forall([INT] * a.nparams, lambda *p, a=a, b=b, prng=prng: z3.Implies(prng(*p), _apply(a.af, p) == _apply(b.af, p)), "arg.congr")
                     new += 1
         added += new
         if not new:
